@@ -68,10 +68,16 @@ T = {
          "register/spill copies outside the wiped buffer are not claimed"),
 }
 
+ILP32 = {"C01", "C02", "C03", "C04", "C06", "C08", "C09", "C10", "C11", "C12", "C13", "C14", "C15", "C16", "C17", "C20"}
+
+
 def main():
     checks, na = [], []
     for pid in sorted(T):
         lvl, tech, ref, text, note = T[pid]
+        if pid in ILP32:
+            tech += "; the same oracle on non-default configurations of the sources (NDEBUG + forced C32, byte-order-neutral paths + no explicit_bzero, strict C99 + unsigned char) and a line-by-line differential of ILP32 (-m32, freestanding, guard pages) builds against the model"
+            text += " Thorough tier: single calls with lengths/counts of 2^31..2^32 and beyond (see DESIGN.md section 11)."
         if pid in props.CHECKS:
             assert props.CHECKS[pid][0] == lvl, pid
             checks.append({
